@@ -582,6 +582,16 @@ class ANF:
 
     # ------------------------------------------------------------------ expressions
     def index_term(self, sl, env, cond, loops):
+        if isinstance(sl, ast.Call) and isinstance(sl.func, ast.Attribute) and sl.func.attr == "ix_" and len(sl.args) == 2 and not sl.keywords \
+                and self.eval(sl.func, env, cond, loops) == ("x", "numpy.ix_"):
+            # x[np.ix_(rows, cols)] is x[rows[:, np.newaxis], cols[np.newaxis, :]]
+            mod = U(sl.func.value)
+            a_ = ast.parse("(%s)[:, %s.newaxis]" % (U(sl.args[0]), mod), mode="eval").body
+            b_ = ast.parse("(%s)[%s.newaxis, :]" % (U(sl.args[1]), mod), mode="eval").body
+            for n_ in (a_, b_):
+                ast.copy_location(n_, sl)
+                ast.fix_missing_locations(n_)
+            return (self.eval(a_, env, cond, loops), self.eval(b_, env, cond, loops))
         if isinstance(sl, ast.Tuple):
             return tuple(self.slice_term(e, env, cond, loops) for e in sl.elts)
         return (self.slice_term(sl, env, cond, loops),)
